@@ -20,7 +20,7 @@ META = {
                    "that has such an effect -- executes only on the branch of the `_tree_frozen` test whose other branch raises; "
                    "the flag is written only by __init__/freeze_tree/unfreeze_tree, which do nothing else; no code outside Manager "
                    "writes the indices; in set_value nothing is written to user data before the calls that may refuse; the "
-                   "plain-value path reaches no guarded function and propagation is computed afresh from the graph.",
+                   "plain-value path reaches no guarded function and propagation is computed afresh from the graph. The frozen branch raises ValueError with a message whose construction cannot fail (no `%` formatting of a bare operand that may be a tuple), and constructing a task ahead of the refusal evaluates nothing.",
     "decides": "guard dominance of all graph mutations (interprocedural over Manager methods), flag ownership, ordering refuse-before-write",
     "not_decided": "'behaves as if never frozen' over histories",
     "assumptions": ["mutations of a Manager created in the same function (copy/clone) are not mutations of the frozen one",
